@@ -130,6 +130,7 @@ def run_stream(stream, guard=4.0):
         res['stale'] = key in main.connections
         main.connections.pop(key, None)
         res['image'] = im.image()
+        res['shape'] = [1 if a.scalar else len(a.value) for a in im.attrs]
         # a second session from the same peer must be served
         _armed[0] = True
         signal.setitimer(signal.ITIMER_REAL, guard, 1.0)
@@ -146,6 +147,115 @@ def run_stream(stream, guard=4.0):
     finally:
         im.close()
     return res
+
+
+def run_udp(dgrams, guard=6.0):
+    """the real enip_srv_udp on a scripted datagram socket: [(bytes, peer address)] -> per datagram the list of
+    (reply bytes, destination) sent while it was the datagram being processed; None = guard expired"""
+    from cpppo import dotdict
+    from cpppo.server.enip import logix, device, main
+    from cpppo.server import network
+    device.lookup_reset(); logix.setup_reset()
+    im = L.Impl(488, c06.TAGS)
+    q = list(dgrams)
+    cur = [-1]
+    out = [[] for _ in dgrams]
+    srv = dotdict(); srv.control = dotdict(latency=0.0, done=False, disable=False)
+
+    class Conn:
+        def sendto(self, b, a):
+            if 0 <= cur[0] < len(out):
+                out[cur[0]].append((bytes(b), a))
+
+    def fake_recvfrom(conn, timeout=None):
+        cur[0] += 1
+        if not q:
+            srv.control.done = True
+            return b'', ('0.0.0.0', 9)
+        return q.pop(0)
+    saved = network.recvfrom
+    network.recvfrom = fake_recvfrom
+    signal.signal(signal.SIGALRM, _alarm)
+    _armed[0] = True
+    signal.setitimer(signal.ITIMER_REAL, guard, 1.0)
+    try:
+        for _ in range(len(dgrams) + 3):                 # the server loop swallows every exception, the guard's too
+            if srv.control.done:
+                break
+            try:
+                main.enip_srv_udp(Conn(), 'c08udp', logix.process, server=srv)
+            except Hang:
+                return None
+        shape = [1 if a.scalar else len(a.value) for a in im.attrs]
+        return out if srv.control.done else None, shape
+    finally:
+        _armed[0] = False
+        signal.setitimer(signal.ITIMER_REAL, 0)
+        network.recvfrom = saved
+        for k in {str(k).split('.')[0] for k in list(main.connections) if str(k).startswith(('10_9_', '0_0_0_0_9'))}:
+            main.connections.pop(k, None)
+        im.close()
+
+
+def udp_check(ctx, bad):
+    """UDP entry point: well-formed List* / read datagrams of several peers interleaved with hostile datagrams of other peers
+    (trailing bytes beyond 24+length, truncations, bit flips, random bytes).  Every well-formed datagram must be answered by
+    exactly the reply it gets when it is the only datagram the simulator ever sees, sent to its own peer; nothing is ever
+    sent to a peer other than the sender of the datagram being processed."""
+    rng = ctx.rng
+    good = [hdr for hdr in (c06.hdr(0x63, b'', 0, b'udp-id00'), c06.hdr(0x04, b'', 0, b'udp-svc0'), c06.hdr(0x64, b'', 0, b'udp-if00'))]
+    good += [E.build_unconnected(L.py_req(('read', ('sym', 'S', None), 3)), ctx=b'udp-rdS0', session=0, wrap=True),
+             E.build_unconnected(L.py_req(('readf', ('sym', 'T', None), 4, 0)), ctx=b'udp-rdT0', session=0)]
+    solo = {}
+    for g in good:
+        r = run_udp([(g, ('10.9.0.1', 1000))])
+        if r is None or r[0] is None:
+            raise core.HarnessError('UDP harness: a single well-formed datagram was not processed')
+        solo[g] = [b for b, _ in r[0][0]]
+    good = [g for g in good if len(solo[g]) == 1 and solo[g][0][8:12] == bytes(4)]
+    if len(good) < 4:
+        raise core.HarnessError('UDP harness: the well-formed datagrams are not all answered with status 0')
+    n = 0
+    for _ in range(120 if ctx.thorough else 25):
+        dg, want = [], []
+        for j in range(rng.randrange(3, 9)):
+            g = rng.choice(good)
+            k = rng.random()
+            # hostile datagrams come from other peers than the well-formed ones: a peer whose own datagram was answered with a
+            # non-zero encapsulation status is (legitimately) ignored from then on
+            peer = ('10.9.0.%d' % (rng.randrange(1, 3) if k < 0.5 else rng.randrange(3, 6)), 1000 + rng.randrange(3))
+            if k < 0.5:
+                dg.append((g[:19] + bytes([48 + j]) + g[20:], peer)); want.append(True)       # distinguishable sender context
+            elif k < 0.65:
+                dg.append((g + bytes(rng.getrandbits(8) for _ in range(rng.choice([1, 2, 12, 24, 30]))), peer)); want.append(False)
+            elif k < 0.75:
+                dg.append((g + rng.choice(good)[:rng.choice([1, 23, 24])], peer)); want.append(False)
+            elif k < 0.85:
+                dg.append((g[:rng.randrange(0, len(g))], peer)); want.append(False)
+            elif k < 0.93:
+                b = bytearray(g); b[rng.randrange(len(b))] ^= 1 << rng.randrange(8); dg.append((bytes(b), peer)); want.append(False)
+            else:
+                dg.append((bytes(rng.getrandbits(8) for _ in range(rng.randrange(1, 60))), peer)); want.append(False)
+        n += 1
+        r = run_udp(dg)
+        w = dict(udp_datagrams=[(b.hex(), a) for b, a in dg])
+        if r is None or r[0] is None:
+            bad(w, 'UDP: processing of %d datagrams did not finish within the guard' % len(dg)); continue
+        out, shape = r
+        if shape != [t['n'] for t in c06.TAGS]:
+            bad(dict(w, tag_lengths=shape), 'UDP: the tag store is corrupted'); continue
+        for i, ((b, peer), wf) in enumerate(zip(dg, want)):
+            for rb, dest in out[i]:
+                if dest != peer:
+                    bad(dict(w, at=i, sent_to=dest), 'UDP: a reply was sent to a peer other than the sender of the datagram being processed'); break
+            if wf:
+                g0 = b[:19] + b'0' + b[20:]
+                exp = [x[:19] + b[19:20] + x[20:] for x in solo[g0]]
+                got = [rb for rb, _ in out[i]]
+                if got != exp:
+                    bad(dict(w, at=i, got=[x.hex() for x in got], alone=[x.hex() for x in exp]),
+                        'UDP: a well-formed datagram is not answered as it is when sent alone (another peer\'s datagram interfered)'); break
+    return n
 
 
 def readback_frames():
@@ -355,6 +465,9 @@ def run(ctx):
             bad(w, 'per-connection state was left behind after the connection ended (the next session from this peer inherits it)'); continue
         if not r['second_ok']:
             bad(w, 'a new session was not served after this input'); continue
+        if r['shape'] != [t['n'] for t in c06.TAGS]:
+            bad(dict(w, tag_lengths=r['shape'], configured=[t['n'] for t in c06.TAGS]),
+                'the tag store is corrupted: a tag no longer has its configured number of elements'); continue
         if r['image'] != base0:
             nchanged += 1
             flags, rest = reference_view(stream)
@@ -383,6 +496,8 @@ def run(ctx):
                 continue
         if len(hostile_for_tcp) < 5 and kind.split('@')[0] in ('random30', 'truncate', 'field16', 'garbage-after', 'cut-frame1'):
             hostile_for_tcp.append(stream)
+    nudp = udp_check(ctx, bad)
+    cov['udp_datagram_sequences'] = nudp
     for pm in tcp_smoke(hostile_for_tcp or [b'\x6f\x00\xff\xff' + bytes(20)])[:2]:
         bad(dict(tcp=pm), 'TCP: ' + pm)
     cov['evaluations'] = N + len(hostile_for_tcp)
